@@ -40,7 +40,12 @@ ShapesOf(n) ==
 FromSizes(sz) == [k \in 1..Len(sz) |-> [j \in 1..sz[k] |-> SumSeq(SubSeq(sz, 1, k - 1)) + j]]
 OneEach(n)    == [k \in 1..n |-> <<k>>]
 
-TasksOf(kind) == CASE kind = "sl" -> {"cc", "sec", "sed"} [] kind = "ml" -> {"cml"} [] OTHER -> {kind}   \* or one single-label task
+\* kinds "mlnear" / "sednear": every item repeats the score ticks of the first one, so that on every class the items
+\* are ranked by the tiny offsets alone (the truths still differ as drawn)
+IsMl(kind)   == kind \in {"ml", "mlnear"}
+IsNear(kind) == kind \in {"mlnear", "sednear"}
+TasksOf(kind) == CASE kind = "sl" -> {"cc", "sec", "sed"} [] IsMl(kind) -> {"cml"} [] kind = "sednear" -> {"sed"}
+                   [] OTHER -> {kind}   \* or one single-label task
 TaskNo(task)  == CASE task = "cc" -> 0 [] task = "cml" -> 0 [] task = "sec" -> 1 [] task = "sed" -> 2
 Labelled(items) == {i \in DOMAIN items : items[i].t # 0} # {}
 
@@ -57,14 +62,27 @@ ExtraPatterns(m) ==
        <<>> >>
 \* the case drawn from plan entry e for the index multiset rs and the task
 \* sound_event_detection: how each event pair exists (Metrics!MatchKind); a quarter of the items stay matched pairs
+\* near-equal scores (Metrics!FineOf) for the two tasks that rank items (mean average precision): in every second
+\* case most scores strictly between 0 and 1 carry a tiny offset, so that equal ticks of two items are ordered by it
+\* (the other cases keep pure lattice scores and their true ties)
+\* item i, class k, h a hash: mostly the two real offsets, alternating with the item index (so two neighbouring items
+\* with the same tick are strictly ordered, in a direction that changes with the class and the hash), sometimes the
+\* sub-resolution code 1 or no offset
+FineCode(i, k, h) == IF h % 5 = 0 THEN (IF h % 2 = 0 THEN 1 ELSE 0) ELSE 2 + ((i + k + h) % 2)
 MatchKinds == <<"both", "pred", "ann", "both", "pred0", "ann", "ann0", "pred">>
 MkCore(e, rs, task) ==
-    LET item(r) == IF e.kind # "ml" THEN SlItem(r, e.C) ELSE MlItem(r, e.C)
+    LET item(r) == IF ~IsMl(e.kind) THEN SlItem(r, e.C) ELSE MlItem(r, e.C)
+        sc(i) == IF IsNear(e.kind) THEN item(rs[1]).s ELSE item(rs[i]).s
+        fineOn == IsNear(e.kind) \/ (SumSeq(rs) + rs[1]) % 2 = 0
         sh == ShapesOf(e.n)
     IN  [task  |-> task, C |-> e.C, u |-> U,
          items |-> [i \in 1..e.n |-> LET it == item(rs[i]) IN
-                       [t |-> it.t, y |-> it.y, s |-> it.s,
-                        m |-> IF task = "sed" THEN MatchKinds[1 + ((3 * rs[i] + 5 * i + SumSeq(rs)) % Len(MatchKinds))] ELSE "both"]],
+                       [t |-> it.t, y |-> it.y, s |-> sc(i),
+                        f |-> [k \in 1..e.C |->
+                                 IF task \in {"cml", "sed"} /\ fineOn /\ sc(i)[k] # 0 /\ sc(i)[k] # U /\ (IsMl(e.kind) \/ SumSeq(sc(i)) < U)
+                                 THEN FineCode(i, k, rs[i] + SumSeq(rs)) ELSE 0],
+                        m |-> IF task = "sed" /\ ~IsNear(e.kind)
+                              THEN MatchKinds[1 + ((3 * rs[i] + 5 * i + SumSeq(rs)) % Len(MatchKinds))] ELSE "both"]],
          clips |-> IF task \in {"cc", "cml"} THEN OneEach(e.n)
                    ELSE FromSizes(sh[1 + ((SumSeq(rs) + TaskNo(task)) % Len(sh))]),
          style |-> (rs[1] + 3 * rs[e.n] + TaskNo(task)) % 4]
@@ -72,7 +90,7 @@ MkCase(e, rs, task) ==
     LET k == MkCore(e, rs, task)  pats == ExtraPatterns(Len(k.clips))
     IN  [task |-> k.task, C |-> k.C, u |-> k.u, items |-> k.items, clips |-> k.clips, style |-> k.style,
          extras |-> pats[1 + ((5 * rs[1] + SumSeq(rs) + (rs[e.n] \div 3) + 3 * TaskNo(task)) % Len(pats))]]
-Catalogue(e) == IF e.kind # "ml" THEN SlValid(e.C) ELSE MlRaw(e.C)
+Catalogue(e) == IF ~IsMl(e.kind) THEN SlValid(e.C) ELSE MlRaw(e.C)
 
 \* sound_event_detection computes mean average precision over the labelled items: with none it is undefined
 \* (not generated, see DESIGN section 4 C09)
@@ -150,6 +168,20 @@ LawTermNamesFunction  == TableTermNamesFunction(c.task, TableVariant)
 ImplMapRefinesReq == (Out /\ ~SingleLabel(c.task)) => ImplMapMLRefinesReq(c.items, c.C, c.u, MapVariant)
 \* the clips evaluated (walk the predictions, keep the annotated ones) are exactly the clips in both inputs, in both orders
 LawEvaluatedClips == ImplIterateRefinesReq(c)
+\* offsets only on ticks strictly between 0 and 1 (a score stays in [0,1]), and a single-label item keeps its scores within the unit mass
+LawFineWellFormed ==
+    \A i \in DOMAIN c.items : \A k \in 1..c.C :
+        /\ c.items[i].f[k] \in 0..3
+        /\ c.items[i].f[k] # 0 => (c.items[i].s[k] # 0 /\ c.items[i].s[k] < c.u /\ (SingleLabel(c.task) => SumSeq(c.items[i].s) < c.u))
+\* a real difference decides: a positive item scored a hair above the only negative one has average precision 1
+\* on that class, a hair below it does not (two-item problems of the multilabel task)
+LawFineOrders == (Out /\ c.task = "cml" /\ Len(c.items) = 2) =>
+    \A k \in 1..c.C :
+        LET a == c.items[1]  b == c.items[2]
+            ka == a.s[k] * FF + a.f[k]  kb == b.s[k] * FF + b.f[k]
+            ap == BinAP(<<a.y[k], b.y[k]>>, <<ka, kb>>, c.u * FF)
+        IN  (a.y[k] = 1 /\ b.y[k] = 0 /\ a.s[k] = b.s[k] /\ a.f[k] \in {2, 3} /\ b.f[k] \in {0, 2, 3}) =>
+                ((ap.num = ap.den) <=> (a.f[k] > b.f[k]))
 LawStyle == c.style \in 0..3
 LawExtrasWellFormed == \A i \in DOMAIN c.extras : c.extras[i].pos \in 0..Len(c.clips) /\ c.extras[i].side \in {"pred", "ann"}
 \* detection: an annotation nothing was predicted for is a miss of the accuracy family unless it is itself unlabelled,
@@ -174,7 +206,9 @@ PlanQuick ==
        [kind |-> "ml", C |-> 1, n |-> 1, stride |-> 1], [kind |-> "ml", C |-> 1, n |-> 2, stride |-> 1],
        [kind |-> "ml", C |-> 2, n |-> 1, stride |-> 1], [kind |-> "ml", C |-> 2, n |-> 2, stride |-> 64],
        [kind |-> "ml", C |-> 2, n |-> 3, stride |-> 2048],
-       [kind |-> "ml", C |-> 3, n |-> 1, stride |-> 8], [kind |-> "ml", C |-> 3, n |-> 2, stride |-> 8192] >>
+       [kind |-> "ml", C |-> 3, n |-> 1, stride |-> 8], [kind |-> "ml", C |-> 3, n |-> 2, stride |-> 8192],
+       [kind |-> "mlnear", C |-> 2, n |-> 2, stride |-> 64], [kind |-> "mlnear", C |-> 2, n |-> 3, stride |-> 4096],
+       [kind |-> "sednear", C |-> 2, n |-> 2, stride |-> 16], [kind |-> "sednear", C |-> 2, n |-> 3, stride |-> 256] >>
 PlanThorough ==
     << [kind |-> "sl", C |-> 1, n |-> 1, stride |-> 1], [kind |-> "sl", C |-> 1, n |-> 2, stride |-> 1],
        [kind |-> "sl", C |-> 1, n |-> 3, stride |-> 1],
@@ -186,5 +220,9 @@ PlanThorough ==
        [kind |-> "ml", C |-> 1, n |-> 3, stride |-> 1],
        [kind |-> "ml", C |-> 2, n |-> 1, stride |-> 1], [kind |-> "ml", C |-> 2, n |-> 2, stride |-> 2],
        [kind |-> "ml", C |-> 2, n |-> 3, stride |-> 64],
-       [kind |-> "ml", C |-> 3, n |-> 1, stride |-> 1], [kind |-> "ml", C |-> 3, n |-> 2, stride |-> 256] >>
+       [kind |-> "ml", C |-> 3, n |-> 1, stride |-> 1], [kind |-> "ml", C |-> 3, n |-> 2, stride |-> 256],
+       [kind |-> "mlnear", C |-> 2, n |-> 2, stride |-> 4], [kind |-> "mlnear", C |-> 2, n |-> 3, stride |-> 256],
+       [kind |-> "mlnear", C |-> 3, n |-> 2, stride |-> 512],
+       [kind |-> "sednear", C |-> 2, n |-> 2, stride |-> 1], [kind |-> "sednear", C |-> 2, n |-> 3, stride |-> 16],
+       [kind |-> "sednear", C |-> 3, n |-> 2, stride |-> 16] >>
 =============================================================================
